@@ -1775,11 +1775,9 @@ func c20(c *Ctx) {
 	// beyond the alphabet of value texts, see c20ModelText):
 	//  * quoted `let` arguments (C20-let-quoted)
 	//  * invalid number literals such as 08, 2#2, 1x (C20-invalid-literal-no-error)
-	//  * values that are a signed or blank-padded name (C20-numberlike-name)
 	//  * value texts with tokens after a complete expression (C20-value-trailing-tokens)
 	//  * errors other than division by zero / negative exponent inside $(( )) (C20-value-error-status)
 	//  * cyclic or > 98-link name chains (C20-name-cycle, documented upstream)
-	//  * ++x++ (C20-preinc-postinc-panic)
 	//  * `**` with a computed exponent inside an unevaluated branch (C20-dead-branch-negexp)
 	//  * array-element lvalues `a[1]++` (C28: "unsupported assignment target", bash supports them)
 	// Repaired and no longer excluded: expression-text values, name-valued targets of op=/++/--,
@@ -1793,6 +1791,13 @@ func c20(c *Ctx) {
 		case "atoi":
 			s := unhx(rest)
 			c.Op("atoi "+hx(s), strconv.FormatInt(expand.VerifAtoi(s), 10))
+		case "parseerr":
+			// an expression the parser must reject and bash must fail on
+			_, accepted := c20Parse(rest)
+			sh := runShell(c, "bash", "x=1; y=2; (( "+rest+" ))")
+			if accepted || (!sh.TimedOut && sh.Status == 0) {
+				c.Fail(l, fmt.Sprintf("parser accepts: %v, bash status %d (expected: rejected, non-zero)", accepted, sh.Status))
+			}
 		}
 	}
 	c.Op("prectable", c20PrecTable())
